@@ -28,8 +28,11 @@ def showDec (d : Dec) : Str :=
       padded.take (padded.length - d.scale) ++ '.' :: padded.drop (padded.length - d.scale)
   if d.neg then '-' :: body else body
 
-def escapeStr (s : Str) : Str :=
-  s.flatMap (fun c => if c == '\\' then ['\\', '\\'] else if c == '"' then ['\\', '"'] else [c])
+def escChar (c : Char) : Str := if c == '\\' then ['\\', '\\'] else if c == '"' then ['\\', '"'] else [c]
+
+def escapeStr : Str → Str
+  | [] => []
+  | c :: cs => escChar c ++ escapeStr cs
 
 def joinSep (sep : Str) : List Str → Str
   | [] => []
